@@ -132,7 +132,7 @@ def epoch_traces(ctx, replay, prop):
     return stats
 
 
-def quota_size_cases(ctx, replay, prop):
+def quota_size_cases(ctx, replay, prop, pattern=r"population size|total|offspring|progeny|error"):
     """B2 (DESIGN.md 7/C02): the behaviours of MC_Quota (Quota.tla: adjust, apportion, make-up, steal, delta coding) installed in
     real populations and run through the real prepare / reproduce / finalize phases; every failure that concerns the TOTAL of the
     quotas, the number of offspring or the population size is a violation of `prop` (the per-species arithmetic belongs to C09)."""
@@ -156,9 +156,10 @@ def quota_size_cases(ctx, replay, prop):
     ctx.evaluations += rep.get("evaluations", 0)
     ctx.traces += rep.get("extra", {}).get("behaviours_compared", 0)
     for f in rep.get("failures", []):
-        if re.search(r"population size|total|offspring|progeny|error", f.get("what", "")):
+        if re.search(pattern, f.get("what", "")):
             ctx.violation(f["what"], "%s quota-size %s" % (prop, f.get("stage", "")), {"kind": "quota-size", "failure": f})
     ctx.extra.setdefault("scope", {})["quota_behaviours_replayed"] = rep.get("cases", 0)
+    ctx.extra["scope"]["champion_copies_checked_in_quota_behaviours"] = rep.get("extra", {}).get("champion_copies_checked", 0)
 
 
 @pipeline("C02")
@@ -196,6 +197,10 @@ def c10(ctx, replay):
         spec_must_hold(mc, "MC_Epoch")
     st = epoch_traces(ctx, replay, "C10")
     ctx.nontrivial = st.get("species-quota>5", 0)
+    # every behaviour of MC_Quota (incl. stolen babies with an under-filled pool, delta coding) through a whole real epoch on
+    # organisms with pairwise different weights: a species whose quota exceeds 5 must leave an unmodified copy of (one of) its
+    # fittest organism(s)
+    quota_size_cases(ctx, replay, "C10", pattern=r"champion:")
 
 
 _NOTE = ("Trace validation of seeded scenarios (quick: 63 scenarios x 12-14 epochs, population 3..30; thorough: 378 scenarios x up to 30 "
